@@ -544,6 +544,17 @@ def body_sites():
             and os.environ.get('AITB_C06_LENIENT_SITES') != '1':
         raise X.ExtractError(f'{CM}: copy constructor initialiser list changed: {init[:200]}')
     out.append(('coopCopyCtor', CM, X.lineno(cache[CM], m.start())))
+    # the stream loaders (AITB.Model.Loader): log messages removed, class name abstracted
+    io = cache.setdefault('src/MDP/IO.cpp', X.strip_comments(X.read('src/MDP/IO.cpp')))
+    want = ('{CLSin(m.getS(),m.getA());doublediscount;if(!(is>>discount)){returnis;}elsein.setDiscount(discount);autotransitions=in.getTransitionFunction();'
+            'if(!read(is,transitions)){returnis;}else{try{in.setTransitionFunction(transitions);}catch(conststd::invalid_argument&){is.setstate(std::ios::failbit);returnis;}}'
+            'autorewards=in.getRewardFunction();if(!read(is,rewards)){returnis;}elsein.setRewardFunction(rewards);m=std::move(in);returnis;}')
+    for name, cls in (('loadModel', 'Model'), ('loadSparseModel', 'SparseModel')):
+        got, ln = _body_after(io, r'std::istream\s*&\s*operator>>\s*\(\s*std::istream\s*&\s*is\s*,\s*' + cls + r'\s*&\s*m\s*\)\s*\{', 'src/MDP/IO.cpp: operator>> ' + cls)
+        got = re.sub(r'AI_LOGGER\(AI_SEVERITY_\w+,"[^"]*"\);', '', got)
+        if got != want.replace('CLS', cls) and os.environ.get('AITB_C06_LENIENT_SITES') != '1':
+            raise X.ExtractError(f'src/MDP/IO.cpp:{ln}: operator>>(istream&, {cls}&) is not in the form the Lean model (AITB.Model.Loader) was written from: {got[:200]}')
+        out.append((name, 'src/MDP/IO.cpp', ln))
     return out
 
 
